@@ -45,3 +45,9 @@ Definition cmp_of_meth (m : meth) : cmp := match m with Meq => Ceq | Mne => Cne 
 Definition meth_of_cmp (c : cmp) : meth := match c with Ceq => Meq | Cne => Mne | Clt => Mlt | Cle => Mle | Cgt => Mgt | Cge => Mge end.
 
 Inductive boolop := BAnd | BOr | BNot.      (* operator.and_ / or_ / not_ *)
+
+(* operator.and_ / or_ / not_ applied to the results of the operands (a result that is an exception propagates); the wrong arity is a TypeError *)
+Definition apply_boolop2 (op : boolop) (a b : res) : res :=
+  match op with BAnd => res_and a b | BOr => res_or a b | BNot => RRaise end.
+Definition apply_boolop1 (op : boolop) (a : res) : res :=
+  match op with BNot => res_not a | _ => RRaise end.
